@@ -145,6 +145,8 @@ pub mod refcbor;
 pub mod refcbor_dec;
 pub mod common;
 pub mod c03;
+pub mod c04;
+pub mod wellformed;
 pub mod c11;
 pub mod c14;
 #[cfg(not(kani))]
@@ -153,6 +155,8 @@ pub mod e2n;
 pub mod battery;
 
 harnesses! {
+    c04_datum_prefix_5 [stub 8] => c04::datum_prefix_5;
+    c04_datum_prefix_7 [stub 10] => c04::datum_prefix_7;
     c03_tx_input [stub 5] => c03::tx_input;
     c03_value_ada [stub 5] => c03::value_ada;
     c03_value_1x2 [stub 5] => c03::value_1x2;
@@ -180,6 +184,9 @@ harnesses! {
     e2n_bigint_narrowing [native 0] => e2n::bigint_narrowing;
     e2n_c18_cert_signers [native 0] => e2n::c18_cert_signers;
     e2n_builder_battery [native 0] => battery::builder_battery;
+    e2n_c09_battery [native 0] => battery::c09_battery;
+    e2n_c10_pointers [native 0] => battery::c10_pointers;
+    e2n_c01_struct_roundtrip [native 0] => battery::c01_battery;
     c11_enc_base [stub 4] => c11::enc_base;
     c11_enc_enterprise [stub 4] => c11::enc_enterprise;
     c11_enc_reward [stub 4] => c11::enc_reward;
